@@ -1,12 +1,13 @@
 #!/bin/bash
-# tools/intake.sh: copy finished seeds from /tmp/seed/Cxx/SEEDn into /verif/seeded/Cxx-n and evaluate those without eval.json
+# tools/intake.sh [SRC [OFFSET]]: copy finished seeds from SRC/Cxx/SEEDn (default /tmp/seed) into /verif/seeded/Cxx-(n+OFFSET) and evaluate every seed without eval.json
 cd /verif
 declare -A COMP=( [C02]="C02 C07" [C05]="C05 C16" [C09]="C09 C01" [C10]="C10 C01" [C07]="C07 C02" [C15]="C15" [C06]="C06 C07" )
 todo=()
-for d in /tmp/seed/C??/SEED?; do
+SRC=${1:-/tmp/seed}; OFF=${2:-0}
+for d in $SRC/C??/SEED?; do
   [ -f $d/patch.diff ] && [ -f $d/demo.py ] && [ -f $d/meta.json ] || continue
-  p=$(basename $(dirname $d)); n=${d: -1}; t=seeded/$p-$n
+  p=$(basename $(dirname $d)); n=$(( ${d: -1} + OFF )); t=seeded/$p-$n
   if [ ! -d $t ]; then mkdir -p $t; cp $d/patch.diff $d/demo.py $d/meta.json $t/; fi
-  [ -s $t/eval.json ] || todo+=("$t")
-done
+  done
+for t in seeded/C??-?; do [ -s $t/eval.json ] || todo+=("$t"); done
 printf '%s\n' "${todo[@]}" | xargs -P 3 -I{} bash -c 'p=$(basename {} | cut -d- -f1); case $p in C02) c="C02 C07";; C05) c="C05 C16";; C09) c="C09 C01";; C10) c="C10 C01";; C07) c="C07 C02";; C06) c="C06 C07";; *) c=$p;; esac; VERIF_JOBS=6 python3 tools/seedeval.py {} $c > {}/eval.json 2>{}/eval.err; echo done {}'
